@@ -145,6 +145,9 @@ def finish(res, tier, t0, seed=0):
               + (f'\n    witness: {witness_text(o.witness) if isinstance(o.witness, dict) else o.witness}' if o.witness else ''))
         print(f'VIOLATION property={prop} replay={rp}')
         code = 1
+    if os.environ.get('CARDVERIF_LIST_OBS'):
+        for o in res.obs:
+            print(f'OB\t{o.verdict}\t{o.oid}\t{getattr(o, "rule", None) or ""}\t{(o.construct or "")[:60]}')
     for o in undecided:
         print(f'UNDECIDED property={prop} obligation={o.oid} at {o.where}: {o.construct} :: {o.detail}')
     if undecided and code == 0:
